@@ -17,6 +17,7 @@ import (
 	"github.com/bluenviron/mediamtx/internal/logger"
 	"github.com/bluenviron/mediamtx/internal/metrics"
 	"github.com/bluenviron/mediamtx/internal/servers/hls"
+	"github.com/bluenviron/mediamtx/internal/verifhook"
 )
 
 func pathConfCanBeUpdated(oldPathConf *conf.Path, newPathConf *conf.Path) bool {
@@ -594,6 +595,8 @@ func (pm *pathManager) Describe(req defs.PathDescribeReq) (*defs.PathDescribeRes
 			return nil, res1.Err
 		}
 
+		verifhook.Point("pathManager.Describe.gap")
+
 		res2, err := res1.Path.(*path).describe(req)
 		if err != nil {
 			return nil, err
@@ -619,6 +622,8 @@ func (pm *pathManager) AddPublisher(req defs.PathAddPublisherReq) (*defs.PathAdd
 			}
 			return nil, res1.Err
 		}
+
+		verifhook.Point("pathManager.AddPublisher.gap")
 
 		res2, err := res1.Path.(*path).addPublisher(req)
 		if err != nil {
@@ -647,6 +652,8 @@ func (pm *pathManager) AddReader(req defs.PathAddReaderReq) (*defs.PathAddReader
 			}
 			return nil, res1.Err
 		}
+
+		verifhook.Point("pathManager.AddReader.gap")
 
 		res2, err := res1.Path.(*path).addReader(req)
 		if err != nil {
